@@ -4,6 +4,8 @@ check reports on the CLEAN tree belong to an already described genuine-defect cl
 their signatures to that finding in known_findings.json.
 usage: tools/absorb_known.py <Cxx> <tier> <prefix>=<finding id> [...]"""
 import glob, json, os, shutil, subprocess, sys
+import fcntl
+_lock = open('/verif/target/.repo-dev.lock', 'w'); fcntl.flock(_lock, fcntl.LOCK_EX)  # excludes tools/try_seed.sh
 cid, tier, maps = sys.argv[1], sys.argv[2], dict(a.rsplit('=', 1) for a in sys.argv[3:])
 if subprocess.run(['git', '-C', '/repo', 'diff', '--quiet']).returncode != 0:
     sys.exit('refusing: /repo has uncommitted changes (a seeded change may be applied)')
